@@ -884,6 +884,8 @@ class Interp:
             if isinstance(recv, list) and meth in ("append", "extend"):
                 getattr(recv, meth)(*args)
                 return None
+            if isinstance(recv, (list, tuple)) and meth == "count" and len(args) == 1 and (args[0] is None or isinstance(args[0], bool)):
+                return sum(1 for x in recv if x is args[0])
             if isinstance(recv, list) and meth == "index":
                 for i, x in enumerate(recv):
                     if x is args[0]:
